@@ -528,3 +528,98 @@ func (ms *Mesh) ConnectOneWay(i, j int, label m.SwitchLabel) error {
 	a.Links[j] = la
 	return nil
 }
+
+// ---- live switches: the real worker pool of the switch instead of the synchronous hook.
+
+// StartSwitches starts the real switch workers (Switch.Start) of every router node. Frames are then fed through
+// the switch's real input channel with DeliverLive, so that whatever the worker loop itself does with a frame
+// (not only handleFrame, which the synchronous hook calls) is part of the execution.
+func (ms *Mesh) StartSwitches() error {
+	for _, n := range ms.Nodes {
+		if n.Inst == nil || n.Inst.SwitchV == nil {
+			continue
+		}
+		if err := n.Inst.SwitchV.Start(); err != nil {
+			return err
+		}
+	}
+	return nil
+}
+
+// StopSwitches cancels the switch workers started by StartSwitches.
+func (ms *Mesh) StopSwitches() {
+	for _, n := range ms.Nodes {
+		if n.Inst != nil && n.Inst.SwitchV != nil {
+			n.Inst.SwitchV.Manager().Cancel()
+		}
+	}
+}
+
+// LiveOutcome is what became of one frame handed to a live switch.
+type LiveOutcome struct {
+	Forwarded *Packet // the frame left the node on a link (taken out of the in-flight list)
+	Escalated []byte  // the frame as the switch handed it to the router
+	ParseErr  error
+	Lost      bool // neither within the watchdog time (dropped with an error, or stuck)
+}
+
+// DeliverLive parses the packet at its receiver, hands it to the receiver's running switch workers through the
+// real input channel and waits until the frame shows up again: on one of the node's links or on the channel to
+// the router. The wait is a watchdog (10 s for a handling that takes microseconds), not a verdict.
+func (ms *Mesh) DeliverLive(p *Packet) LiveOutcome {
+	var out LiveOutcome
+	n := ms.Nodes[p.To]
+	b := n.Inst.BuilderV
+	off := peering.FrameOffset
+	ps := b.GetPooledSlice(off + len(p.Data) + peering.FrameOverhead)
+	if ps == nil {
+		out.ParseErr = errors.New("frame too big for any pooled slice")
+		return out
+	}
+	copy(ps[off:], p.Data)
+	f, err := b.ParseFrame(ps[off:off+len(p.Data)], ps, off)
+	if err != nil {
+		b.ReturnPooledSlice(ps)
+		out.ParseErr = err
+		return out
+	}
+	if link := n.Links[p.From]; link != nil {
+		f.SetRecvLink(link)
+	}
+	key := Key(p.Data)
+	select {
+	case n.Inst.SwitchV.Input() <- f:
+	case <-time.After(10 * time.Second):
+		out.Lost = true
+		return out
+	}
+	deadline := time.Now().Add(10 * time.Second)
+	for time.Now().Before(deadline) {
+		select {
+		case g := <-n.Upstream:
+			d, _ := g.FrameDataWithMargins(0, 0)
+			if Key(d) == key {
+				out.Escalated = append([]byte(nil), d...)
+				g.ReturnToPool()
+				return out
+			}
+			g.ReturnToPool()
+		default:
+		}
+		ms.mu.Lock()
+		for i, q := range ms.InFlight {
+			if q.From == p.To && Key(q.Data) == key {
+				ms.InFlight = append(ms.InFlight[:i], ms.InFlight[i+1:]...)
+				out.Forwarded = q
+				break
+			}
+		}
+		ms.mu.Unlock()
+		if out.Forwarded != nil {
+			return out
+		}
+		time.Sleep(20 * time.Microsecond)
+	}
+	out.Lost = true
+	return out
+}
